@@ -22,8 +22,9 @@ type CacheEntry struct {
 
 type CacheDoc map[string]CacheEntry
 
-// DecodeCacheStrict accepts exactly the documented shape: no unknown or
-// duplicate fields, no null entries, string-encoded lastAccess.
+// DecodeCacheStrict accepts the documented shape: every documented field present with the
+// documented type, none of them twice, no null entries, string-encoded lastAccess, nothing after
+// the document. Fields the documentation does not mention are tolerated and ignored.
 func DecodeCacheStrict(data []byte) (CacheDoc, error) {
 	var top map[string]json.RawMessage
 	if err := strictUnmarshal(data, &top); err != nil {
@@ -103,7 +104,7 @@ func strictUnmarshal(data []byte, v any) error {
 }
 
 // exactFields decodes raw (which must be a JSON object) into v and demands
-// that its keys are exactly a subset of allowed, each at most once.
+// that each of the allowed keys occurs at most once (other keys are skipped).
 func exactFields(raw json.RawMessage, v any, allowed ...string) error {
 	dec := json.NewDecoder(bytes.NewReader(raw))
 	tok, err := dec.Token()
@@ -127,7 +128,13 @@ func exactFields(raw json.RawMessage, v any, allowed ...string) error {
 			}
 		}
 		if !ok {
-			return fmt.Errorf("unknown field %q", k)
+			// a field this codec does not know: the properties do not forbid additional fields in
+			// documents the store writes (its own reader and the file-backed client ignore them)
+			var skip json.RawMessage
+			if err := dec.Decode(&skip); err != nil {
+				return err
+			}
+			continue
 		}
 		if seen[k] {
 			return fmt.Errorf("duplicate field %q", k)
